@@ -128,16 +128,18 @@ def emit() -> str:
             raise ValueError(f"ActionPenalty.ConfigSchema.{f} is not `{f}: float = <literal>`")
         ap_defaults.append((f, lean_rat(d.value)))
     # weight defaults: `_SingleComponentConfig.weight: float = <literal>` and `register_component(..., weight=<literal>)`
+    def opt_rat(v) -> str:
+        try:
+            return "(some " + lean_rat(v) + ")"
+        except (ValueError, AttributeError):
+            return "none"
     scc = class_def(rw, "_SingleComponentConfig")
     wd = next((s for s in scc.body if isinstance(s, ast.AnnAssign) and ast.unparse(s.target) == "weight"), None)
-    if wd is None or ast.unparse(wd.annotation) != "float" or wd.value is None:
-        raise ValueError("_SingleComponentConfig.weight is not `weight: float = <literal>`: "
-                         + (ast.unparse(wd) if wd is not None else "missing"))
-    default_weight = lean_rat(wd.value)
+    # `weight: float = <integer-valued literal>`; anything else (another annotation, `None`, no default) is emitted as `none`
+    default_weight = opt_rat(wd.value) if wd is not None and ast.unparse(wd.annotation) == "float" and wd.value is not None else "none"
     rc = find_method(class_def(rw, "RewardFunction"), "register_component")
-    if [a.arg for a in rc.args.args] != ["self", "component", "weight"] or len(rc.args.defaults) != 1:
-        raise ValueError("register_component signature changed: " + ast.unparse(rc.args))
-    register_default = lean_rat(rc.args.defaults[0])
+    register_default = opt_rat(rc.args.defaults[0]) \
+        if [a.arg for a in rc.args.args] == ["self", "component", "weight"] and len(rc.args.defaults) == 1 else "none"
     # `current_reward` / `total_reward` start at 0.0
     rf = class_def(rw, "RewardFunction")
     starts = []
@@ -160,9 +162,9 @@ def stickyDefaults : List (String × Bool) := [{", ".join(f"({lean_str(c)}, {b(v
 def componentTypes : List (String × String) := [{", ".join(f"({lean_str(c)}, {lean_str(t)})" for c, t, _ in classes)}]
 def actionPenaltyDefaults : List (String × Rat) := [{", ".join(f"({lean_str(c)}, {v})" for c, v in ap_defaults)}]
 /-- `_SingleComponentConfig.weight: float = …` (a component whose configuration omits the key) -/
-def defaultWeight : Rat := {default_weight}
+def defaultWeight : Option Rat := {default_weight}
 /-- `register_component(self, component, weight=…)` -/
-def registerDefaultWeight : Rat := {register_default}
+def registerDefaultWeight : Option Rat := {register_default}
 /-- `RewardFunction.current_reward: float = …`, `total_reward: float = …` -/
 def rewardStarts : List (String × Rat) := [{", ".join(f"({lean_str(c)}, {v})" for c, v in starts)}]
 
